@@ -311,22 +311,27 @@ func c19Extra(tier string, _ int64) *runner.ExtraResult {
 
 // podsClass names the class of a pods-filter disagreement (got = the real filter's answer).
 func podsClass(kind string, set []W, p *corev1.Pod, got bool) string {
-	otherNSMatch, lacking, selMatch := false, false, false
+	otherNSMatch, lacking, lackingHere, selMatch := false, false, false, false
 	for _, w := range set {
 		lacks := w.Sel == nil || (mapKind(kind) && len(w.Sel.ML) == 0)
 		lacking = lacking || lacks
+		lackingHere = lackingHere || (lacks && w.NS == p.Namespace)
 		if s, ok := wEffective(kind, w); ok && s.Matches(p.Labels) {
 			otherNSMatch = otherNSMatch || w.NS != p.Namespace
 			selMatch = selMatch || (w.NS == p.Namespace && !lacks)
 		}
 	}
+	noSel := "accepts pod not matching the template labels of a selector-less workload"
+	if kind == "svc" {
+		noSel = "service without selector selects pods"
+	}
 	switch {
+	case got && lackingHere:
+		return noSel
 	case got && otherNSMatch:
 		return "accepts pod in other namespace"
-	case got && lacking && kind == "svc":
-		return "service without selector selects pods"
 	case got && lacking:
-		return "accepts pod not matching the template labels of a selector-less workload"
+		return noSel
 	case got:
 		return "accepts pod matched by no given workload"
 	case selMatch:
